@@ -31,6 +31,9 @@ pub struct CloudSpec {
 #[derive(Clone, Debug)]
 pub enum Op {
     Blob(Vec<u8>),
+    /// add_blob whose payload source fails after delivering the first k bytes: the call must
+    /// report the failure, the blob is not part of the expected content, and the writer stays usable
+    BlobFail(Vec<u8>, usize),
     Image(m::Image),
     Cloud(CloudSpec),
     Ext(String, String),
@@ -68,6 +71,7 @@ pub struct RunResult {
 pub fn describe_op(op: &Op) -> String {
     match op {
         Op::Blob(b) => format!("blob({})", b.len()),
+        Op::BlobFail(b, k) => format!("blob({}) source fails after {k} bytes", b.len()),
         Op::Image(i) => {
             let rep = |r: &Option<m::Rep>| {
                 r.as_ref().map(|r| {
@@ -188,6 +192,14 @@ fn run_inner(dev: Dev, p: &Program, o: &ExecOpts, res: &mut RunResult, cur: &mut
                 let mut s = src(b, o);
                 let blob = tr!(i, "add_blob", w.add_blob(&mut s));
                 res.blobs.push((blob.offset, blob.length));
+            }
+            Op::BlobFail(b, k) => {
+                res.api_calls += 1;
+                let mut s = FailingSrc { data: b.clone(), pos: 0, fail_at: *k };
+                if w.add_blob(&mut s).is_ok() {
+                    res.err = Some((i, "add_blob".to_string(), "SUCCESS although the payload source failed".into()));
+                    return;
+                }
             }
             Op::Image(img) => {
                 let guid = img.guid.clone().unwrap_or_default();
@@ -385,7 +397,7 @@ pub fn expected_scene(p: &Program) -> m::Scene {
             }
             Op::Creation(c) => s.creation = c.clone(),
             Op::CoordMeta(c) => s.coordinate_metadata = c.clone(),
-            Op::Blob(_) => {}
+            Op::Blob(_) | Op::BlobFail(..) => {}
             Op::Image(i) => s.images.push(i.clone()),
             Op::Cloud(c) => {
                 if !c.abandon {
@@ -401,6 +413,24 @@ pub fn expected_scene(p: &Program) -> m::Scene {
         }
     }
     s
+}
+
+/// Payload source that delivers `fail_at` bytes (one read call) and then fails.
+pub struct FailingSrc {
+    pub data: Vec<u8>,
+    pub pos: usize,
+    pub fail_at: usize,
+}
+impl std::io::Read for FailingSrc {
+    fn read(&mut self, buf: &mut [u8]) -> std::io::Result<usize> {
+        if self.pos >= self.fail_at.min(self.data.len()) {
+            return Err(std::io::Error::other("payload source failed"));
+        }
+        let n = buf.len().min(self.fail_at.min(self.data.len()) - self.pos);
+        buf[..n].copy_from_slice(&self.data[self.pos..self.pos + n]);
+        self.pos += n;
+        Ok(n)
+    }
 }
 
 pub fn blob_payloads(p: &Program) -> Vec<Vec<u8>> {
